@@ -65,6 +65,7 @@ FIRST_LOOK = {  # recorded when the seed was first run, before any rule was touc
  "C04-13": "missed", "C04-14": "missed", "C04-15": "missed",
  "C28-13": "missed", "C28-14": "missed", "C28-15": "missed",
  "C10-13": "caught", "C10-14": "missed by C10, caught by C07", "C10-15": "caught",
+ "C06-13": "missed", "C06-14": "missed", "C06-15": "missed",
  "C10-10": "missed", "C10-11": "missed", "C10-12": "unknown-shape alarm only (a false one: R10e took `Pos{}` in reset() for state; corrected)",
 }
 def key(d):
